@@ -22,6 +22,7 @@ From AN Require Import Model.SrvE2E Proofs.SrvPauseB Proofs.SrvStrand Proofs.Srv
 From AN Require Import Model.Srv Model.Builder.
 From AN Require Import Proofs.SrvConserve Proofs.SrvConserve2 Proofs.SrvConserve3 Proofs.SrvConserve4 Proofs.BuilderFacts.
 From AN Require Proofs.SrvInv Proofs.SrvFault.
+From AN Require Model.Wrk Proofs.WrkFacts.
 Import ListNotations.
 
 (* Conservation, for EVERY script (kills, respawns, commands, injected errors, yield schedules, any limit,
@@ -236,6 +237,23 @@ Example C01_e2e_example :
   err st = None /\ map w_open (ws st) = [true; false; true] /\ map w_idx (ws st) = [0%N; 1%N; 1%N] /\ handles st = [0; 2].
 Proof. vm_compute. repeat split. Qed.
 
+(* The worker side of the last clause (Model/Wrk.v, the model of ServerWorker::poll that C06 and C07 use): once the worker has left
+   its serving states — a stop command was taken up — no service is ever called again, whatever is still in its queue or is pushed
+   afterwards; and on entering the graceful shutdown every queued connection is released (its guard dropped), not served. *)
+Theorem C01_worker_no_call_after_stop : forall c ops ops2,
+  let s := Wrk.exec c (Wrk.init c) ops in ~ WrkFacts.live s -> Wrk.calls_of (concat (Wrk.run c s ops2)) = [].
+Proof. intros c ops ops2 s. exact (WrkFacts.no_call_after_shutdown c ops2 s (WrkFacts.reachable_inv c ops)). Qed.
+Theorem C01_worker_queue_released : forall c s sid rest,
+  Wrk.sq s = (true, sid) :: rest -> Wrk.inprog s <> [] ->
+  exists o cnt, Wrk.drain c (Wrk.cq s) (Wrk.counter s) = (cnt, o) /\
+                snd (Wrk.poll c s) = (match Wrk.ws s with Wrk.WShutdown _ _ sid0 => [Wrk.StopLost sid0] | _ => [] end) ++ o /\
+                Wrk.cq (fst (Wrk.poll c s)) = [] /\
+                (forall x, In x (Wrk.cq s) -> In (Wrk.Released (snd x)) o).
+Proof.
+  intros c s sid rest H1 H2. destruct (WrkFacts.stop_graceful_enter c s sid rest H1 H2) as (o & cnt & Hd & Hp & _ & Hr).
+  exists o, cnt. rewrite Hp. cbn. auto.
+Qed.
+
 Print Assumptions C01_conservation.
 Print Assumptions C01_conservation_wf.
 Print Assumptions C01_conservation_exact.
@@ -248,3 +266,5 @@ Print Assumptions C01_routing.
 Print Assumptions C01_builder_tokens.
 Print Assumptions C01_e2e_oracle_reachable.
 Print Assumptions C01_e2e_ab_oracle_reachable.
+Print Assumptions C01_worker_no_call_after_stop.
+Print Assumptions C01_worker_queue_released.
